@@ -305,7 +305,8 @@ Proof.
     assert (P1 : Post 0 s (set_proto 3 s)) by (apply Post_frame; auto).
     pose proof (reconnect_body_F ok _ (Good_post _ _ _ HG P1)) as P2.
     pose proof (Post_trans 0 1 _ _ _ P1 P2) as P12.
-    apply after_read_F; [eapply Good_post; eassumption| |exact P12]. destruct P12 as (_ & A & _). congruence. }
+    destruct (reconnect_body c nested ok (set_proto 3 s)) as [sx [rcx|]]; cbn [fst] in *;
+      (apply after_read_F; cbn [fst]; [eapply Good_post; eassumption| |exact P12]; destruct P12 as (_ & A & _); congruence). }
   assert (Hack : forall rc, Post 1 s (fst (after_read c nested id0 (handle_connack nested rc s)))).
   { intros rc. unfold handle_connack.
     set (sx := if rc =? 0 then match cs s with CsDisconnecting => s | _ => set_cs CsConnected s end else s).
